@@ -136,7 +136,7 @@ Definition ret_ok' (st : cl_state) : Prop :=
               | _ => None
               end.
 
-Record inv (D : bool -> bytes) (st : cl_state) : Prop := mk_inv {
+Record cl_inv (D : bool -> bytes) (st : cl_state) : Prop := mk_inv {
   i_relay : forall d, relay_ok d st;
   i_parked : forall d, parked_ok d st;
   i_closes : forall s, s_closes (get_side s st) = expected_closes s (mn st);
@@ -163,7 +163,7 @@ Lemma expected_woken s m : expected_closes s (woken m) = expected_closes s m.
 Proof. destruct m; reflexivity. Qed.
 
 (* a copier that is parked is parked on an open conn, so once copyLoop has closed both, both copiers are gone *)
-Lemma returned_exited D st : inv D st -> mn st = Returned -> forall d, get_dir d st = Exited.
+Lemma returned_exited D st : cl_inv D st -> mn st = Returned -> forall d, get_dir d st = Exited.
 Proof.
   intros Hi Hm d. pose proof (i_parked D st Hi d) as Hp. unfold parked_ok, closed in Hp.
   destruct (get_dir d st); [| |reflexivity]; rewrite (i_closes D st Hi), Hm in Hp; cbn in Hp; rewrite closedb_S in Hp; discriminate.
@@ -171,7 +171,7 @@ Qed.
 
 (* the workhorse: a step of copier d *)
 Lemma inv_dir_step D d st st' :
-  inv D st -> mn st <> Returned ->
+  cl_inv D st -> mn st <> Returned ->
   get_dir (negb d) st' = get_dir (negb d) st ->
   s_in (get_side d st') = s_in (get_side d st) ->
   s_out (get_side (negb d) st') = s_out (get_side (negb d) st) ->
@@ -181,7 +181,7 @@ Lemma inv_dir_step D d st st' :
   shut st' = shut st -> at_ret st' = at_ret st ->
   (mn st' = mn st /\ (get_dir d st = Exited -> get_dir d st' = Exited)) \/ (mn st' = woken (mn st) /\ get_dir d st' = Exited) ->
   relay_ok d st' -> parked_ok d st' -> script_ok (D d) (get_side d st') ->
-  inv D st'.
+  cl_inv D st'.
 Proof.
   intros Hi Hnr Hdir Hin Hout Hrd Hcl Hext Hsh Har Hmn Hrel Hpk Hsc.
   assert (Hclosed : forall s, closed (get_side s st') = closed (get_side s st)) by (intros s; unfold closed; rewrite Hcl, Hext; reflexivity).
@@ -222,7 +222,7 @@ Ltac frame d :=
   first [ solve [ let s := fresh "s" in intros s; destruct (bool_cases s d) as [->| ->]; autorewrite with cl; cbn; auto ]
         | solve [ intros; autorewrite with cl; cbn; auto ] ].
 
-Lemma do_read_inv D d st : inv D st -> get_dir d st = AtRead -> inv D (do_read d st).
+Lemma do_read_inv D d st : cl_inv D st -> get_dir d st = AtRead -> cl_inv D (do_read d st).
 Proof.
   intros Hi Hd.
   assert (Hnr : mn st <> Returned) by (intros Hm; rewrite (returned_exited D st Hi Hm d) in Hd; discriminate).
@@ -243,7 +243,7 @@ Proof.
   assert (Hsc1 : script_ok (D d) (side_read (get_side d st) rest' chunk)).
   { unfold script_ok. cbn [side_read s_out s_reads]. rewrite <- app_assoc, Hsplit. exact Hsc. }
   assert (Hfin : (exists t, s_out (get_side d st) ++ chunk = s_in (get_side (negb d) st) ++ t) ->
-                 inv D (finish d (set_side d (side_read (get_side d st) rest' chunk) st))).
+                 cl_inv D (finish d (set_side d (side_read (get_side d st) rest' chunk) st))).
   { intros Ht. apply (inv_dir_step D d st _ Hi Hnr); [frame d ..| | |].
     - unfold relay_ok. autorewrite with cl. exact Ht.
     - unfold parked_ok. autorewrite with cl. trivial.
@@ -270,7 +270,7 @@ Qed.
 Lemma firstn_all_of_not_lt {A} n (c : list A) : Nat.ltb n (length c) = false -> firstn n c = c.
 Proof. intros H. apply Nat.ltb_ge in H. apply firstn_all2. exact H. Qed.
 
-Lemma do_write_inv D d c er st : inv D st -> get_dir d st = AtWrite c er -> inv D (do_write d c er st).
+Lemma do_write_inv D d c er st : cl_inv D st -> get_dir d st = AtWrite c er -> cl_inv D (do_write d c er st).
 Proof.
   intros Hi Hd.
   assert (Hnr : mn st <> Returned) by (intros Hm; rewrite (returned_exited D st Hi Hm d) in Hd; discriminate).
@@ -284,7 +284,7 @@ Proof.
     - autorewrite with cl. exact Hsc. }
   set (w := match s_writes (get_side (negb d) st) with [] => w_ok | w :: _ => w end).
   set (n := match w_limit w with None => length c | Some l => Nat.min l (length c) end).
-  assert (Hfin : inv D (finish d (set_side (negb d) (side_write (get_side (negb d) st) (firstn n c)) st))).
+  assert (Hfin : cl_inv D (finish d (set_side (negb d) (side_write (get_side (negb d) st) (firstn n c)) st))).
   { apply (inv_dir_step D d st _ Hi Hnr); [frame d ..| | |].
     - unfold relay_ok. autorewrite with cl. cbn [side_write s_in]. exists (skipn n c).
       rewrite <- app_assoc, firstn_skipn. auto.
@@ -353,7 +353,7 @@ Qed.
 (* st0 satisfies the invariant; st1 is st0 with side s closed (and copyLoop possibly moved on); then the parked
    operations are woken *)
 Lemma inv_wake D s st0 st1 :
-  inv D st0 ->
+  cl_inv D st0 ->
   (forall d, get_dir d st1 = get_dir d st0) ->
   (forall t, s_in (get_side t st1) = s_in (get_side t st0)) ->
   (forall t, s_out (get_side t st1) = s_out (get_side t st0)) ->
@@ -364,7 +364,7 @@ Lemma inv_wake D s st0 st1 :
   (forall t, s_closes (get_side t st1) = expected_closes t (mn st1)) ->
   (mn st1 <> Waiting -> mn st0 <> Waiting) ->
   ret_ok' st1 ->
-  inv D (wake s st1).
+  cl_inv D (wake s st1).
 Proof.
   intros Hi Hdir Hin Hout Hrd Hcs Hcn Hsh Hcl Hmn Hret.
   destruct (wake_facts s st1) as (Ws & Wsh & War & Wds & Wdn & Wm).
@@ -385,7 +385,7 @@ Proof.
   - intros t. pose proof (i_script D st0 Hi t) as H. unfold script_ok in *. rewrite Ws, Hout, Hrd. exact H.
 Qed.
 
-Lemma do_ext_inv D s st : inv D st -> inv D (do_ext s st).
+Lemma do_ext_inv D s st : cl_inv D st -> cl_inv D (do_ext s st).
 Proof.
   intros Hi. unfold do_ext. apply (inv_wake D s st _ Hi).
   - intros d. autorewrite with cl. reflexivity.
@@ -405,7 +405,7 @@ Proof.
     reflexivity.
 Qed.
 
-Lemma do_main_inv D st : inv D st -> inv D (do_main st).
+Lemma do_main_inv D st : cl_inv D st -> cl_inv D (do_main st).
 Proof.
   intros Hi. unfold do_main. destruct (mn st) eqn:Em; [exact Hi| | |exact Hi].
   - (* the deferred c1.Close() *)
@@ -442,7 +442,7 @@ Qed.
 Lemma do_shutdown_eq st : do_shutdown st = set_mn (woken (mn st)) (set_shut true st).
 Proof. unfold do_shutdown. destruct st as [? ? ? ? m ? ?]. destruct m; reflexivity. Qed.
 
-Lemma do_shutdown_inv D st : inv D st -> inv D (do_shutdown st).
+Lemma do_shutdown_inv D st : cl_inv D st -> cl_inv D (do_shutdown st).
 Proof.
   intros Hi. rewrite do_shutdown_eq. constructor.
   - intros d. apply (relay_ok_ext d st); [destruct d; reflexivity ..|]. apply (i_relay D st Hi).
@@ -456,7 +456,7 @@ Qed.
 
 (* ---------- every step, every schedule ---------- *)
 
-Theorem step_inv D st x : inv D st -> inv D (cl_do st x).
+Theorem step_inv D st x : cl_inv D st -> cl_inv D (cl_do st x).
 Proof.
   intros Hi. destruct x as [d| | |s]; cbn [cl_do].
   - destruct (get_dir d st) eqn:Ed.
@@ -468,12 +468,12 @@ Proof.
   - apply do_ext_inv; assumption.
 Qed.
 
-Lemma run_inv D sched : forall st, inv D st -> inv D (cl_run sched st).
+Lemma run_inv D sched : forall st, cl_inv D st -> cl_inv D (cl_run sched st).
 Proof. induction sched as [|x l IH]; intros st Hi; [exact Hi|]. apply IH, step_inv, Hi. Qed.
 
 Definition script_of (r0 r1 : list cl_ritem) (s : bool) : bytes := script_data (if s then r1 else r0).
 
-Lemma init_inv r0 w0 r1 w1 : inv (script_of r0 r1) (cl_init r0 w0 r1 w1).
+Lemma init_inv r0 w0 r1 w1 : cl_inv (script_of r0 r1) (cl_init r0 w0 r1 w1).
 Proof.
   constructor.
   - intros []; reflexivity.
@@ -484,5 +484,196 @@ Proof.
   - intros []; reflexivity.
 Qed.
 
-Lemma reach_inv r0 w0 r1 w1 sched : inv (script_of r0 r1) (cl_run sched (cl_init r0 w0 r1 w1)).
+Lemma reach_inv r0 w0 r1 w1 sched : cl_inv (script_of r0 r1) (cl_run sched (cl_init r0 w0 r1 w1)).
 Proof. apply run_inv, init_inv. Qed.
+
+(* ---------- (a) each direction is an in-order byte relay ---------- *)
+
+Section Reach.
+  Variables (r0 r1 : list cl_ritem) (w0 w1 : list cl_witem) (sched : list cl_step).
+  Let st := cl_run sched (cl_init r0 w0 r1 w1).
+
+  Lemma prefix_firstn {A} (a t : list A) : a = firstn (length a) (a ++ t).
+  Proof. rewrite firstn_app, Nat.sub_diag, firstn_all. cbn. rewrite app_nil_r. reflexivity. Qed.
+
+  (* what side (1-d) accepted is a prefix of what side d handed out: nothing inserted, nothing reordered, nothing
+     skipped in the middle *)
+  Theorem relay_prefix : forall d, exists n, s_in (get_side (negb d) st) = firstn n (s_out (get_side d st)).
+  Proof.
+    intros d. pose proof (i_relay _ _ (reach_inv r0 w0 r1 w1 sched) d) as H. fold st in H. unfold relay_ok in H.
+    destruct (get_dir d st).
+    - exists (length (s_out (get_side d st))). rewrite firstn_all. exact H.
+    - exists (length (s_in (get_side (negb d) st))). rewrite <- H. apply prefix_firstn.
+    - destruct H as [t H]. exists (length (s_in (get_side (negb d) st))). rewrite H. apply prefix_firstn.
+  Qed.
+
+  (* a copier parked at a Read has delivered everything it read; parked at a Write, everything but the chunk it holds *)
+  Theorem relay_exact_at_read : forall d, get_dir d st = AtRead -> s_in (get_side (negb d) st) = s_out (get_side d st).
+  Proof.
+    intros d Hd. pose proof (i_relay _ _ (reach_inv r0 w0 r1 w1 sched) d) as H. fold st in H. unfold relay_ok in H.
+    rewrite Hd in H. exact H.
+  Qed.
+
+  Theorem relay_at_write : forall d c er, get_dir d st = AtWrite c er ->
+    s_in (get_side (negb d) st) ++ c = s_out (get_side d st).
+  Proof.
+    intros d c er Hd. pose proof (i_relay _ _ (reach_inv r0 w0 r1 w1 sched) d) as H. fold st in H. unfold relay_ok in H.
+    rewrite Hd in H. exact H.
+  Qed.
+
+  (* what a side has handed out, followed by what its script still holds, is the script's data *)
+  Theorem consumed_prefix : forall s,
+    s_out (get_side s st) ++ script_data (s_reads (get_side s st)) = script_data (if s then r1 else r0).
+  Proof. intros s. exact (i_script _ _ (reach_inv r0 w0 r1 w1 sched) s). Qed.
+
+  (* usable by C01: if all a side will ever hand out is a prefix of str, what the other side accepts is a prefix of str *)
+  Theorem relay_prefix_of : forall (d : bool) (str : bytes), (exists t, str = script_data (if d then r1 else r0) ++ t) ->
+    exists k, s_in (get_side (negb d) st) = firstn k str.
+  Proof.
+    intros d str [t HS]. destruct (relay_prefix d) as [n Hn]. pose proof (consumed_prefix d) as Hc.
+    exists (Nat.min n (length (s_out (get_side d st)))).
+    rewrite Hn, HS, <- Hc, <- app_assoc, <- firstn_firstn.
+    rewrite (firstn_app (length (s_out (get_side d st)))), Nat.sub_diag, firstn_all. cbn [firstn]. rewrite app_nil_r.
+    reflexivity.
+  Qed.
+
+  (* ---------- (b) the conns are closed once each, after a copier finished or shutdown ---------- *)
+
+  Theorem closes_exact : forall s, s_closes (get_side s st) = expected_closes s (mn st).
+  Proof. exact (i_closes _ _ (reach_inv r0 w0 r1 w1 sched)). Qed.
+
+  Theorem closes_at_most_once : forall s, s_closes (get_side s st) <= 1.
+  Proof. intros s. rewrite closes_exact. destruct s, (mn st); cbn; lia. Qed.
+
+  Theorem closes_once_when_returned : mn st = Returned -> forall s, s_closes (get_side s st) = 1.
+  Proof. intros H s. rewrite closes_exact, H. reflexivity. Qed.
+
+  (* c1 is closed before c2 (the defers run last-in first-out) *)
+  Theorem closes_in_order : s_closes (side1 st) <= s_closes (side0 st).
+  Proof.
+    pose proof (closes_exact false) as H0. pose proof (closes_exact true) as H1. cbn [get_side] in H0, H1.
+    rewrite H0, H1. destruct (mn st); cbn; lia.
+  Qed.
+End Reach.
+
+Definition is_shutdown (x : cl_step) : bool := match x with Shutdown => true | _ => false end.
+
+Lemma shut_wake s st : shut (wake s st) = shut st.
+Proof. apply wake_facts. Qed.
+
+Lemma shut_step st x : shut (cl_do st x) = shut st || is_shutdown x.
+Proof.
+  destruct x as [d| | |s]; cbn [cl_do is_shutdown]; rewrite ?orb_false_r, ?orb_true_r.
+  - destruct (get_dir d st); [| |reflexivity].
+    + unfold do_read, to_read, to_write.
+      repeat match goal with
+             | |- context [if ?b then _ else _] => destruct b
+             | |- context [match ?x with _ => _ end] => destruct x
+             end; autorewrite with cl; reflexivity.
+    + unfold do_write, to_read.
+      repeat match goal with
+             | |- context [if ?b then _ else _] => destruct b
+             | |- context [match ?x with _ => _ end] => destruct x
+             end; autorewrite with cl; reflexivity.
+  - unfold do_main. destruct (mn st); rewrite ?shut_wake; reflexivity.
+  - rewrite do_shutdown_eq. reflexivity.
+  - unfold do_ext. rewrite shut_wake, shut_ss. reflexivity.
+Qed.
+
+Lemma shut_run sched : forall st, shut (cl_run sched st) = shut st || existsb is_shutdown sched.
+Proof.
+  induction sched as [|x l IH]; intros st; cbn [cl_run fold_left existsb]; [rewrite orb_false_r; reflexivity|].
+  change (fold_left cl_do l (cl_do st x)) with (cl_run l (cl_do st x)). rewrite IH, shut_step, orb_assoc. reflexivity.
+Qed.
+
+(* copyLoop leaves its select only after a copier has finished or the shutdown channel was closed *)
+Theorem leaves_select_for_a_reason r0 w0 r1 w1 sched :
+  let st := cl_run sched (cl_init r0 w0 r1 w1) in
+  mn st <> Waiting -> (exists d, get_dir d st = Exited) \/ In Shutdown sched.
+Proof.
+  intros st Hw. destruct (i_cause _ _ (reach_inv r0 w0 r1 w1 sched) Hw) as [H|H]; [left; exact H|right].
+  fold st in H. unfold st in H. rewrite shut_run in H. cbn in H. apply existsb_exists in H.
+  destruct H as [x [Hin Hx]]. destruct x; try discriminate. exact Hin.
+Qed.
+
+(* ---------- (c) after the return nothing moves ---------- *)
+
+
+Lemma wake_id s st : (forall d, get_dir d st = Exited) -> wake s st = st.
+Proof. intros H. unfold wake. rewrite (H s), (H (negb s)). reflexivity. Qed.
+
+Lemma returned_step_view D st x : cl_inv D st -> mn st = Returned -> view (cl_do st x) = view st.
+Proof.
+  intros Hi Hm. pose proof (returned_exited D st Hi Hm) as He.
+  destruct x as [d| | |s]; cbn [cl_do].
+  - rewrite (He d). reflexivity.
+  - unfold do_main. rewrite Hm. reflexivity.
+  - rewrite do_shutdown_eq. unfold view. cbn. rewrite Hm. reflexivity.
+  - unfold do_ext. rewrite wake_id by (intros d; rewrite gd_ss; apply He). destruct s; reflexivity.
+Qed.
+
+Lemma view_mn st st' : view st' = view st -> mn st' = mn st.
+Proof. unfold view. intros H. injection H. auto. Qed.
+
+Lemma returned_run_view D more : forall st, cl_inv D st -> mn st = Returned -> view (cl_run more st) = view st.
+Proof.
+  induction more as [|x l IH]; intros st Hi Hm; [reflexivity|].
+  cbn [cl_run fold_left]. change (fold_left cl_do l (cl_do st x)) with (cl_run l (cl_do st x)).
+  pose proof (returned_step_view D st x Hi Hm) as Hv.
+  rewrite IH; [exact Hv | apply step_inv; exact Hi | rewrite (view_mn _ _ Hv); exact Hm].
+Qed.
+
+Lemma cl_run_app a b st : cl_run (a ++ b) st = cl_run b (cl_run a st).
+Proof. apply fold_left_app. Qed.
+
+(* once copyLoop has returned, no later step of anybody changes a byte, a script position, a Close count or a
+   copier: in particular nothing is written after the closes *)
+Theorem returned_inert r0 w0 r1 w1 sched more :
+  let st := cl_run sched (cl_init r0 w0 r1 w1) in
+  mn st = Returned -> view (cl_run (sched ++ more) (cl_init r0 w0 r1 w1)) = view st.
+Proof.
+  intros st Hm. rewrite cl_run_app. apply (returned_run_view (script_of r0 r1)); [apply reach_inv | exact Hm].
+Qed.
+
+Theorem returned_both_exited r0 w0 r1 w1 sched :
+  let st := cl_run sched (cl_init r0 w0 r1 w1) in mn st = Returned -> forall d, get_dir d st = Exited.
+Proof. intros st Hm. apply (returned_exited (script_of r0 r1)); [apply reach_inv | exact Hm]. Qed.
+
+Theorem late_zero r0 w0 r1 w1 sched : late (cl_run sched (cl_init r0 w0 r1 w1)) = (0, 0).
+Proof.
+  pose proof (i_ret _ _ (reach_inv r0 w0 r1 w1 sched)) as H. unfold ret_ok' in H. unfold late. rewrite H.
+  destruct (mn _); try reflexivity. cbn [get_side]. rewrite !Nat.sub_diag. reflexivity.
+Qed.
+
+(* ---------- relay (CopyLoop) under the C01 packet path ---------- *)
+(* The C01 theorems of Proofs/PacketPathProofs.v take as premise that the byte stream reaching the far end of a carrier
+   is a prefix [firstn k] of what the honest sender put on it. The proxy sits in between: here the premise is discharged
+   from the relay model. Side 0 = the client's WebRTC conn, side 1 = the WebSocket to the server (datachannelHandler). *)
+From Snow Require Import Model.Encap Proofs.EncapProofs Model.CarrierLayer Proofs.CarrierProofs Proofs.PacketPathProofs.
+
+(* upstream: the client side hands the relay (at most) an honest carrier stream; what the relay has written to the
+   server side, fed to a fresh server-side carrier, queues a prefix of the client's packets under the client's id *)
+Theorem upstream_via_relay : forall cid ps w r0 w0 r1 w1 sched,
+  length cid = 8%nat -> wire_of ps = Some w ->
+  is_prefix (script_data r0) (carrier_stream cid w) ->
+  let s := s_in (side1 (cl_run sched (cl_init r0 w0 r1 w1))) in
+  exists k' j, pump (S (S (S (length s)))) (fresh s) = (k', firstn j ps) /\
+               k_up k' = firstn j ps /\ (j <> 0%nat -> k_cid k' = cid).
+Proof.
+  intros cid ps w r0 w0 r1 w1 sched Hc Hw Hp s.
+  destruct (relay_prefix_of r0 r1 w0 w1 sched false (carrier_stream cid w) Hp) as [k Hk].
+  cbn [negb get_side] in Hk. fold s in Hk. rewrite Hk. exact (upstream_cut cid ps w k Hc Hw).
+Qed.
+
+(* downstream: the server side hands the relay (at most) the framed packets w; whatever the relay has written to the
+   client side, the client's packet reader (any reader behaviour sc) yields a prefix of the server's packets *)
+Theorem downstream_via_relay : forall ps w r0 w0 r1 w1 sched sc,
+  wire_of ps = Some w ->
+  is_prefix (script_data r1) w ->
+  let s := s_in (side0 (cl_run sched (cl_init r0 w0 r1 w1))) in
+  exists j e, read_stream s sc = (firstn j ps, e) /\ (e = EOF \/ e = UnexpectedEOF).
+Proof.
+  intros ps w r0 w0 r1 w1 sched sc Hw Hp s.
+  destruct (relay_prefix_of r0 r1 w0 w1 sched true w Hp) as [k Hk].
+  cbn [negb get_side] in Hk. fold s in Hk. rewrite Hk. exact (reader_cut ps w k sc Hw).
+Qed.
